@@ -77,6 +77,13 @@ Theorem C10_channel_half_closed_stays e oid o s r : (o_sent o || s) && (o_recv o
 Proof. exact (channel_half_closed_stays e oid o s r). Qed.
 Print Assumptions C10_channel_half_closed_stays.
 
+(* fragments still in flight for a stream that is gone are dropped, not buffered (defect repaired in the repository:
+   they used to be kept in the reassembly cache for the life of the connection) *)
+Theorem C10_inflight_fragment_dropped e sid ign co nx md d o u : gone e sid ->
+  recv_frame e (FPayload sid ign true co nx md d) o u = (e, []).
+Proof. exact (gone_fragment_dropped e sid ign co nx md d o u). Qed.
+Print Assumptions C10_inflight_fragment_dropped.
+
 (* fire-and-forget never gets an entry; its id is released *)
 Theorem C10_fnf u e md d sid e1 : alloc e = (Some sid, e1) -> gone (fst (ep_step u e (LFnf md d))) sid.
 Proof. exact (fnf_leaves_nothing u e md d sid e1). Qed.
